@@ -630,3 +630,21 @@ def common_cols_fn(text):
 def common_unit(text):
     return ("use vstd::prelude::*;\nuse std::collections::HashSet;\nverus! {\nbroadcast use vstd::std_specs::hash::group_hash_axioms;\n"
             + COMMON_MODEL + common_cols_fn(text) + vlib.verus_canary("canary_c18_common", "x: u64", []) + "\n} // verus!\nfn main() {}\n")
+
+
+# ---- make_optional_kind (whole) ---------------------------------------------------------------------------------------------------
+OPTK_MODEL = """
+pub enum ValueKind { Option(Box<ValueKind>), Other(u64) }
+impl ValueKind { #[verifier::external_body] pub fn clone(&self) -> (r: ValueKind) ensures r == *self, { unimplemented!() } }
+// ---- THE CONTRACT (C18: "columns that can be missing become optional"): the optional version of a kind is `kind?`, and a kind that is already optional stays as it is
+pub open spec fn optional_of(k: ValueKind) -> ValueKind { match k { ValueKind::Option(_) => k, _ => ValueKind::Option(Box::new(k)) } }
+"""
+
+
+def optional_kind_unit(text):
+    """`make_optional_kind` (whole body, verbatim; `ValueKind` reduced to Option / every other kind, `clone` = identity)"""
+    sig, body = extract_fn(text, "make_optional_kind")
+    b = re.sub(r"//[^\n]*", "", body).replace("\r", "")
+    return ("use vstd::prelude::*;\nverus! {\n" + OPTK_MODEL +
+            "fn make_optional_kind(kind: &ValueKind) -> (r: ValueKind)\n  ensures r == optional_of(*kind),\n" + b + "\n"
+            + vlib.verus_canary("canary_optk", "x: u64", []) + "\n} // verus!\nfn main() {}\n")
